@@ -8,7 +8,7 @@ def readMsgs : Nat → Nat → List Int → Option (List Msg)
   | 0, _, [] => some []
   | n + 1, i, s :: c :: rest => do
     let ms ← readMsgs n (i + 1) rest
-    pure (⟨i, s, c⟩ :: ms)
+    pure (⟨i, s % 1000, c⟩ :: ms)
   | _, _, _ => none
 
 def handle (args : List String) : String :=
